@@ -254,7 +254,7 @@ def close_worlds():
 def do_case(case):
     w = world(case["fs"])
     ext, enc = case["ext"], case["enc"]
-    data = MU.file_bytes(ext, content_for(enc), case["with_chart"], key_only=case.get("key_only", False))
+    data = MU.file_bytes(ext, content_for(enc), case["with_chart"], key_only=case.get("key_only", False), unique=True)
     script = case.get("script", [])
     kind = case["kind"]
     if kind == "body":
